@@ -3,9 +3,18 @@
    the transactions (descriptor + what the interpreter did + the observed consensus result / receipt fields)
    and the committed state after the block.  The model (TxPipe.run from begin_block) must reproduce every
    per-transaction observation (consensus result, receipt fields, reported contract address, receipt bloom), every
-   balance and sequence after the block, the supply, the block bloom and the next base fee. *)
+   balance and sequence after the block, the supply, the block bloom and the next base fee.
+   Multi-denomination layer (Model/TxPipeDenom.v): the harness also supplies the balances of the universe and the total
+   supply in every OTHER denomination before and after the block, per Ethereum transaction the accounts created and the
+   accounts deleted by a successful execution (predicted by its reference interpreter), per Cosmos transaction whether
+   its messages were committed and the coins of its bank sends; the model (TxPipeDenom.ddeliver / dstep) must reproduce
+   every balance and every supply of every denomination after the block. *)
 From Evm Require Import TxPipe TxPipeExt CorrBase.
+From Evm Require Export TxPipeDenom.
 Open Scope Z_scope.
+
+(* other denominations: (denomination, account, balance) with absent = 0; (denomination, supply) *)
+Record dsnap := mkDSnap { dn_bal : list (Z * Z * Z); dn_supply : list (Z * Z) }.
 
 Record snap := mkSnap {
   sn_bal : list (Z * Z); sn_seq : list (Z * Z); sn_exists : list Z; sn_code : list Z;
@@ -21,17 +30,29 @@ Record ext := mkExt { xi_ca : Z; xi_logs : list (list Z);
   xi_refund : option (Z * Z * Z);   (* calls to the driver's storage contract: bounds of the gas consumed before the refund and the refund counter, from the SSTORE cost table *)
   xo_ca : option Z; xo_bloom : list Z }.
 
-Inductive citem := IEth (t : txd) (o : evm_out) (ob : obs) (x : ext) | ICosmos (g payer fee : Z) (inc : bool).
-Record block := mkBlock { b_pre : snap; b_maxgas : Z; b_items : list citem; b_post : snap; b_bloom : list Z }.
+Inductive citem :=
+| IEth (t : txd) (o : evm_out) (ob : obs) (x : ext) (dx : devm)
+| ICosmos (g payer fee : Z) (inc : bool) (ok : bool) (sends : list send).
+Record block := mkBlock { b_pre : snap; b_maxgas : Z; b_items : list citem; b_post : snap; b_bloom : list Z;
+                          b_dpre : dsnap; b_dpost : dsnap }.
+
+Fixpoint lookupD (l : list (Z * Z * Z)) (d a : Z) : Z :=
+  match l with [] => 0 | (d', a', v) :: r => if (d' =? d) && (a' =? a) then v else lookupD r d a end.
 
 Fixpoint lookupZ (l : list (Z * Z)) (k : Z) : Z :=
   match l with [] => 0 | (a, v) :: r => if a =? k then v else lookupZ r k end.
 Fixpoint memZ (l : list Z) (k : Z) : bool :=
   match l with [] => false | a :: r => (a =? k) || memZ r k end.
 
-Definition st_of (s : snap) (maxgas : Z) : st :=
+Definition core_of (s : snap) (maxgas : Z) : st :=
   begin_block (mkSt (lookupZ (sn_bal s)) (lookupZ (sn_seq s)) (memZ (sn_exists s)) (memZ (sn_code s))
                     (sn_supply s) (sn_base s) (sn_gmin s) (if 0 <? maxgas then maxgas else 0) 0 0 0 0 false false).
+
+(* x/distribution's BeginBlock sweep of the fee collector moves whatever it holds in ANY denomination into the
+   distribution module account; the fee collector never holds another denomination here (fees are paid in the EVM
+   denomination), which the comparison of its post-block balances confirms *)
+Definition ledger_of (s : dsnap) : ledger := mkLedger (lookupD (dn_bal s)) (lookupZ (dn_supply s)).
+Definition st_of (b : block) : dst := mkDst (core_of (b_pre b) (b_maxgas b)) (ledger_of (b_dpre b)).
 
 Definition class_of (o : outcome) : oclass :=
   match o with
@@ -80,17 +101,29 @@ Definition oracle_consistent (o : evm_out) (x : ext) : bool :=
      | None => true
      end.
 
-Fixpoint run_items (s : st) (l : list citem) : st * bool * list (option rext) :=
+(* the deleted accounts are a set; sends concern the other denominations only (the EVM-denomination part of a Cosmos
+   transaction is its observed fee) *)
+Fixpoint nodupZ (l : list Z) : bool :=
+  match l with [] => true | a :: r => negb (memZ r a) && nodupZ r end.
+Definition denom_consistent (dx : devm) : bool := nodupZ (x_destroyed dx).
+Definition sends_wf (l : list send) : bool := forallb (fun m => negb (s_denom m =? EVM_DENOM)) l.
+
+Fixpoint run_items (s : dst) (l : list citem) : dst * bool * list (option rext) :=
   match l with
   | [] => (s, true, [])
-  | IEth t o ob x :: r =>
-      let '(s1, res) := deliver s t o in
+  | IEth t o ob x dx :: r =>
+      let '(s1, res) := ddeliver s t o dx in
       let okr := res_matches res (match r_out res with Executed _ => e_logs o | _ => 0 end) ob
-                 && ext_matches t res x && oracle_consistent o x in
+                 && ext_matches t res x && oracle_consistent o x && denom_consistent dx in
       let '(s2, ok2, rx) := run_items s1 r in (s2, okr && ok2, receipt_ext t (xi_ca x) (xi_logs x) res :: rx)
-  | ICosmos g payer fee inc :: r =>
-      let '(s1, _) := step s (Cosmos g payer fee inc) in run_items s1 r
+  | ICosmos g payer fee inc ok sends :: r =>
+      let okc := sends_wf sends && cosmos_consistent (d_other s) ok sends in
+      let '(s1, _) := dstep s (DCosmos g payer fee inc ok sends) in
+      let '(s2, ok2, rx) := run_items s1 r in (s2, okc && ok2, rx)
   end.
+
+Fixpoint all_dkeys_ok (f : Z -> Z -> Z) (l : list (Z * Z * Z)) : bool :=
+  match l with [] => true | (d, k, v) :: r => (f d k =? v) && all_dkeys_ok f r end.
 
 Fixpoint all_keys_ok (f : Z -> Z) (l : list (Z * Z)) : bool :=
   match l with [] => true | (k, v) :: r => (f k =? v) && all_keys_ok f r end.
@@ -102,44 +135,76 @@ Definition next_base_ok (s : st) (maxgas : Z) (post : snap) : bool :=
   end.
 
 Definition block_ok (b : block) : bool :=
-  let s0 := st_of (b_pre b) (b_maxgas b) in
-  let '(s1, okr, rxs) := run_items s0 (b_items b) in
+  let s0 := st_of b in
+  let '(d1, okr, rxs) := run_items s0 (b_items b) in
+  let s1 := d_core d1 in
   okr
   && all_keys_ok (bal s1) (sn_bal (b_post b))
   && all_keys_ok (sqn s1) (sn_seq (b_post b))
   && (supply s1 =? sn_supply (b_post b))
   && seteqZ (block_bloom_bits rxs) (b_bloom b)
-  && next_base_ok s1 (b_maxgas b) (b_post b).
+  && next_base_ok s1 (b_maxgas b) (b_post b)
+  && all_dkeys_ok (l_bal (d_other d1)) (dn_bal (b_dpost b))
+  && all_keys_ok (l_supply (d_other d1)) (dn_supply (b_dpost b)).
 
 Definition tp_mismatches (off : nat) (l : list block) : list nat := mism block_ok off l.
 
 (* finer diagnosis for replay files: which component failed *)
 Definition block_diag (b : block) : list bool :=
-  let s0 := st_of (b_pre b) (b_maxgas b) in
-  let '(s1, okr, rxs) := run_items s0 (b_items b) in
+  let s0 := st_of b in
+  let '(d1, okr, rxs) := run_items s0 (b_items b) in
+  let s1 := d_core d1 in
   [okr; all_keys_ok (bal s1) (sn_bal (b_post b)); all_keys_ok (sqn s1) (sn_seq (b_post b));
-   supply s1 =? sn_supply (b_post b); seteqZ (block_bloom_bits rxs) (b_bloom b); next_base_ok s1 (b_maxgas b) (b_post b)].
+   supply s1 =? sn_supply (b_post b); seteqZ (block_bloom_bits rxs) (b_bloom b); next_base_ok s1 (b_maxgas b) (b_post b);
+   all_dkeys_ok (l_bal (d_other d1)) (dn_bal (b_dpost b)); all_keys_ok (l_supply (d_other d1)) (dn_supply (b_dpost b))].
 
 (* which transactions of the block fail which part: (result, extension, oracle consistency) *)
-Fixpoint items_diag (s : st) (l : list citem) : list (bool * bool * bool) :=
+Fixpoint items_diag (s : dst) (l : list citem) : list (bool * bool * bool) :=
   match l with
   | [] => []
-  | IEth t o ob x :: r =>
-      let '(s1, res) := deliver s t o in
-      (res_matches res (match r_out res with Executed _ => e_logs o | _ => 0 end) ob, ext_matches t res x, oracle_consistent o x)
+  | IEth t o ob x dx :: r =>
+      let '(s1, res) := ddeliver s t o dx in
+      (res_matches res (match r_out res with Executed _ => e_logs o | _ => 0 end) ob, ext_matches t res x,
+       oracle_consistent o x && denom_consistent dx)
       :: items_diag s1 r
-  | ICosmos g payer fee inc :: r => let '(s1, _) := step s (Cosmos g payer fee inc) in items_diag s1 r
+  | ICosmos g payer fee inc ok sends :: r =>
+      let '(s1, _) := dstep s (DCosmos g payer fee inc ok sends) in
+      (true, sends_wf sends, cosmos_consistent (d_other s) ok sends) :: items_diag s1 r
   end.
-Definition block_items_diag (b : block) := items_diag (st_of (b_pre b) (b_maxgas b)) (b_items b).
+Definition block_items_diag (b : block) := items_diag (st_of b) (b_items b).
 
-Fixpoint predicted (s : st) (l : list citem) : list txres :=
+Fixpoint predicted (s : dst) (l : list citem) : list txres :=
   match l with
   | [] => []
-  | IEth t o ob _ :: r => let '(s1, res) := deliver s t o in res :: predicted s1 r
-  | ICosmos g payer fee inc :: r => let '(s1, _) := step s (Cosmos g payer fee inc) in predicted s1 r
+  | IEth t o ob _ dx :: r => let '(s1, res) := ddeliver s t o dx in res :: predicted s1 r
+  | ICosmos g payer fee inc ok sends :: r => let '(s1, _) := dstep s (DCosmos g payer fee inc ok sends) in predicted s1 r
   end.
-Definition block_pred (b : block) := predicted (st_of (b_pre b) (b_maxgas b)) (b_items b).
+Definition block_pred (b : block) := predicted (st_of b) (b_items b).
 Definition block_post (b : block) :=
-  let '(s1, _, _) := run_items (st_of (b_pre b) (b_maxgas b)) (b_items b) in
+  let '(d1, _, _) := run_items (st_of b) (b_items b) in
+  let s1 := d_core d1 in
   (map (fun kv => (fst kv, bal s1 (fst kv), snd kv)) (sn_bal (b_post b)),
-   map (fun kv => (fst kv, sqn s1 (fst kv), snd kv)) (sn_seq (b_post b)), supply s1, blk_used s1).
+   map (fun kv => (fst kv, sqn s1 (fst kv), snd kv)) (sn_seq (b_post b)), supply s1, blk_used s1,
+   map (fun kv => (kv, l_bal (d_other d1) (fst (fst kv)) (snd (fst kv)))) (dn_bal (b_dpost b)),
+   map (fun kv => (kv, l_supply (d_other d1) (fst kv))) (dn_supply (b_dpost b))).
+
+(* the items as the histories of Proofs/TxPipeDenomProofs.v see them *)
+Definition ditem_of (c : citem) : ditem :=
+  match c with
+  | IEth t o _ _ dx => DEth t o dx
+  | ICosmos g payer fee inc ok sends => DCosmos g payer fee inc ok sends
+  end.
+
+(* the state the checker compares with the committed post-state is the final state of the model's history
+   (TxPipeDenom.drun) over the block's items: the theorems of Properties/C04.v about dfinal / drun speak about it *)
+Lemma run_items_is_drun : forall l s, fst (fst (run_items s l)) = fst (drun s (map ditem_of l)).
+Proof.
+  induction l as [|c r IH]; intros s; [reflexivity|].
+  destruct c as [t o ob x dx|g payer fee inc ok sends]; cbn [run_items map ditem_of drun].
+  - cbn [dstep]. destruct (ddeliver s t o dx) as [s1 res]. specialize (IH s1).
+    destruct (run_items s1 r) as [[s2 ok2] rx]. destruct (drun s1 (map ditem_of r)) as [s3 r3].
+    cbn [fst] in *. exact IH.
+  - destruct (dstep s (DCosmos g payer fee inc ok sends)) as [s1 rs]. specialize (IH s1).
+    destruct (run_items s1 r) as [[s2 ok2] rx]. destruct (drun s1 (map ditem_of r)) as [s3 r3].
+    cbn [fst] in *. exact IH.
+Qed.
